@@ -87,10 +87,12 @@ def answerCore (line impl : String) : String × String :=
        | _ => ("badop", "-"))
     | _, _ => ("badop", "-")
 
-/-- steps of a `via` prefix: `u<MV>` (make in place and take back) and `m<MV>` (`Board::make_move`) -/
+/-- steps of a `via` prefix: `u<MV>` (make in place and take back), `m<MV>` (`Board::make_move`), `n` (the null move made
+in place and kept; only when the side to move is not in check) -/
 def parseSteps (t : String) : Option (List (Bool × Impl.Move)) :=
   (t.splitOn ",").mapM fun part =>
     match part.toList with
+    | ['n'] => some (true, Impl.Move.null)
     | 'u' :: rest => (parseMove (String.ofList rest)).map fun m => (false, m)
     | 'm' :: rest => (parseMove (String.ofList rest)).map fun m => (true, m)
     | _ => none
@@ -101,6 +103,12 @@ def runSteps (impl : String) : List (Bool × Impl.Move) → Impl.Board → Excep
   | [], b => .ok b
   | (false, _) :: rest, b => runSteps impl rest b
   | (true, m) :: rest, b =>
+    if m = Impl.Move.null then
+      -- the null move made (contract: not in check) and kept: side flips, en-passant mark cleared, clock + 1
+      (match Impl.isCheck? b with
+       | some false => runSteps impl rest (Impl.makeMove b m).1
+       | _ => .error ("n/a", expect "n/a" impl))
+    else
     let na : String × String :=
       ("n/a", match specPos? b.r, absMove m with
               | some p, some sm =>
